@@ -5,8 +5,8 @@ import core
 ID = "C01"
 GEN = []
 RULE = ("ordinary-cell DAGs: every bit length 0..1023 crossed with reference counts 0..4, chains of depth "
-        "1022/1023/1024, random DAGs with sharing, four construction routes (constructor, builder, copy, "
-        "slice->cell, BoC round trip), equality/hash pairs; non-trivial = at least one data bit or one "
+        "1022/1023/1024, random DAGs with sharing, construction routes (constructor, builder, copy, "
+        "slice->cell, BoC round trip, cell taken from a builder/slice that is used further afterwards), equality/hash pairs; non-trivial = at least one data bit or one "
         "reference; distinct by DAG text")
 TRUSTED = [
     "Coq 8.16.1 kernel incl. vm_compute; no native_compute",
@@ -85,7 +85,7 @@ def run(ctx):
         base = imap[cells.dag_line(d)]
         if base.startswith("err"):
             continue
-        for route in ("builder", "copy", "slice", "boc"):
+        for route in ("builder", "copy", "slice", "boc", "builder-reused", "slice-continued"):
             r = core.call_impl(lambda _: _route(d, route), None)
             nroute += 1
             if r != base:
@@ -126,6 +126,33 @@ def _route(d, route):
     from pytoniq_core.boc.cell import Cell
     if route == "builder":
         c = cells.build_py(d, "builder")[-1]
+    elif route == "builder-reused":
+        # the cell is taken from a builder that is then used further: the reported hash must still be the
+        # representation hash of the cell's (unchanged) content
+        from pytoniq_core.boc.builder import Builder
+        objs = cells.build_py(d)
+        ty, bits, refs = d[-1]
+        b = Builder()
+        b.store_bits(bits)
+        for r in refs:
+            b.store_ref(objs[r])
+        c = b.end_cell()
+        try:
+            b.store_ref(Cell.empty())
+            b.store_bits("101")
+        except Exception:
+            pass
+        b.end_cell()
+    elif route == "slice-continued":
+        c0 = cells.build_py(d)[-1]
+        sl = c0.begin_parse()
+        c = sl.to_cell()
+        try:
+            sl.load_bits(min(5, len(sl.bits)))
+            if sl.refs:
+                sl.load_ref()
+        except Exception:
+            pass
     else:
         c0 = cells.build_py(d)[-1]
         if route == "copy":
